@@ -1,10 +1,10 @@
 // Package yieldpt is the target of the yield points that cmd/yieldinst
 // inserts into copies of git-sizer's sources (overlay build, engine A
-// only). A schedule is a list of counts consumed cyclically: at the k-th
-// yield point passed, the running goroutine calls runtime.Gosched() that
-// many times. At GOMAXPROCS=1 this decides, repeatably, which of
-// git-sizer's runnable goroutines proceeds at every lock, channel
-// operation and goroutine start.
+// only), and the yield primitive of the simulated pipes. A schedule is a
+// list of counts consumed cyclically: at the k-th yield point passed, the
+// running goroutine yields the processor that many times. At GOMAXPROCS=1
+// this decides, repeatably, which of git-sizer's runnable goroutines
+// proceeds at every lock, channel operation and goroutine start.
 package yieldpt
 
 import (
@@ -16,7 +16,7 @@ var (
 	sched  atomic.Pointer[[]int]
 	cursor atomic.Uint64
 	// Passed and Yielded count, for the evidence, the yield points passed
-	// while a schedule was installed and the Gosched calls made.
+	// while a schedule was installed and the yields made.
 	Passed  atomic.Uint64
 	Yielded atomic.Uint64
 )
@@ -43,6 +43,83 @@ func P(id int) {
 	n := (*s)[int(i%uint64(len(*s)))]
 	for ; n > 0; n-- {
 		Yielded.Add(1)
+		Yield()
+	}
+}
+
+// A yield must move the caller behind the goroutines that are runnable now
+// and nothing else. runtime.Gosched does not: it parks the caller on the
+// scheduler's global queue, which is polled ahead of the local queue on
+// every 61st scheduling decision of the P, and that counter also advances
+// for reasons that depend on real time (the goroutines that copy the output
+// of the real one-shot git processes, for example). Measured: with Gosched
+// 0.7 % of the runs of one seed had differently ordered event logs.
+//
+// Yield therefore uses only channel hand-offs, which stay on the P's local
+// queue: the caller hands a private channel to helper A and blocks on it; A
+// (made runnable in the "run next" slot) wakes the caller, which takes the
+// slot, and then pokes helper B, which takes the slot in turn and thereby
+// pushes the caller to the tail of the local queue; A and B park again.
+// What runs next is the head of the local queue; the caller runs when the
+// goroutines that were runnable before it have had their turn.
+type helpers struct {
+	req  chan chan struct{}
+	poke chan struct{}
+	quit chan struct{}
+}
+
+var cur atomic.Pointer[helpers]
+
+// Start creates the two helper goroutines. It must be called inside the
+// synctest bubble that will use Yield, and the returned function before
+// the bubble's root function returns.
+func Start() (stop func()) {
+	h := &helpers{req: make(chan chan struct{}), poke: make(chan struct{}), quit: make(chan struct{})}
+	go func() { // A
+		for {
+			select {
+			case c := <-h.req:
+				c <- struct{}{} // buffered: never blocks; the caller is waiting
+				select {
+				case h.poke <- struct{}{}:
+				case <-h.quit:
+					return
+				}
+			case <-h.quit:
+				return
+			}
+		}
+	}()
+	go func() { // B
+		for {
+			select {
+			case <-h.poke:
+			case <-h.quit:
+				return
+			}
+		}
+	}()
+	cur.Store(h)
+	return func() {
+		cur.Store(nil)
+		close(h.quit)
+	}
+}
+
+// Yield lets the goroutines that are runnable now run first.
+func Yield() {
+	h := cur.Load()
+	if h == nil {
 		runtime.Gosched()
+		return
+	}
+	c := make(chan struct{}, 1)
+	select {
+	case h.req <- c:
+		select {
+		case <-c:
+		case <-h.quit:
+		}
+	case <-h.quit:
 	}
 }
